@@ -231,8 +231,34 @@ func (e *pathEnv) of(v ssa.Value) *Path {
 		return &Path{Kind: "unknown", Name: "loop"}
 	}
 	if ph, ok := v.(*ssa.Phi); ok && isLoopPhi(ph) {
+		// a loop-carried value: named by its loop-independent initial values (integer counters
+		// simply "iter"); the update inside the loop is not part of the name
+		cyc := cyclicEdges(ph)
 		p := &Path{Kind: "unknown", Name: "iter"}
 		e.memo[v] = p
+		var inits []string
+		allInt := true
+		for i, ed := range ph.Edges {
+			if cyc[i] {
+				continue
+			}
+			ip := e.of(ed)
+			if _, isInt := constInt(ed); !isInt {
+				allInt = false
+			}
+			inits = append(inits, ip.String())
+		}
+		if !allInt && len(inits) > 0 {
+			sort.Strings(inits)
+			var u []string
+			for i, s := range inits {
+				if i == 0 || s != inits[i-1] {
+					u = append(u, s)
+				}
+			}
+			p = &Path{Kind: "unknown", Name: "iter(" + strings.Join(u, "|") + ")"}
+			e.memo[v] = p
+		}
 		return p
 	}
 	e.active[v] = true
@@ -649,40 +675,56 @@ func (p *Prog) Env(fn *ssa.Function) *pathEnv {
 	return c
 }
 
-// isLoopPhi: a phi one of whose edges depends on the phi itself (loop-carried variable).
+// isLoopPhi: a phi that is reachable from itself through the operand graph (a loop-carried value).
 func isLoopPhi(ph *ssa.Phi) bool {
-	seen := map[ssa.Value]bool{}
-	var dep func(v ssa.Value, d int) bool
-	dep = func(v ssa.Value, d int) bool {
-		if v == ph {
-			return true
-		}
-		if d > 8 || seen[v] {
-			return false
-		}
-		seen[v] = true
-		switch x := v.(type) {
-		case *ssa.BinOp:
-			return dep(x.X, d+1) || dep(x.Y, d+1)
-		case *ssa.Phi:
-			for _, e := range x.Edges {
-				if dep(e, d+1) {
+	return len(cyclicEdges(ph)) > 0
+}
+
+var cyclicMemo = map[*ssa.Phi][]bool{}
+
+// cyclicEdges tells, per edge of ph, whether the edge value depends on ph.
+func cyclicEdges(ph *ssa.Phi) []bool {
+	if r, ok := cyclicMemo[ph]; ok {
+		return r
+	}
+	out := make([]bool, len(ph.Edges))
+	any := false
+	for i, e := range ph.Edges {
+		seen := map[ssa.Value]bool{}
+		var dep func(v ssa.Value, d int) bool
+		dep = func(v ssa.Value, d int) bool {
+			if v == ssa.Value(ph) {
+				return true
+			}
+			if v == nil || d > 40 || seen[v] {
+				return false
+			}
+			seen[v] = true
+			in, ok := v.(ssa.Instruction)
+			if !ok {
+				return false
+			}
+			for _, op := range in.Operands(nil) {
+				if op != nil && *op != nil && dep(*op, d+1) {
 					return true
 				}
 			}
-		case *ssa.Convert:
-			return dep(x.X, d+1)
-		case *ssa.UnOp:
-			return dep(x.X, d+1)
+			return false
 		}
-		return false
-	}
-	for _, e := range ph.Edges {
-		if e != ph && dep(e, 0) {
-			return true
+		if e != ssa.Value(ph) && dep(e, 0) {
+			out[i] = true
+			any = true
+		}
+		if e == ssa.Value(ph) {
+			out[i] = true
+			any = true
 		}
 	}
-	return false
+	if !any {
+		out = nil
+	}
+	cyclicMemo[ph] = out
+	return out
 }
 
 // riskyConv: an integer conversion that changes signedness or narrows (the ones that can wrap).
